@@ -675,6 +675,21 @@ def _r_ident(ck, world, table) -> None:
                       f'returns the identity on self.in_structure() only under the no-op guard ({guard})',
                       f'{cls.name}.reduce returns an identity ' + ('without a dominating no-op guard' if guard is None else f'on {show(rt[2])} instead of self.in_structure()')
                       + ': an operator that changes its input is replaced by the identity', instance='no-op guard')
+    # the shared reduce() of the ravel / reshape operators: where its no-op guard is not in the written form above, it is decided
+    # by following the axes through RavelOperator (C13: reduce() is the identity exactly when no leaf changes)
+    pending = [o for o in ck.obs if o.rule.endswith('R-IDENT') and o.status != 'ok' and 'AbstractRavelOrReshapeOperator.reduce' in o.construct]
+    if pending:
+        from types import SimpleNamespace
+
+        from . import c13
+
+        sub = type(ck)(ck.pid)
+        ravel = table.by_name('RavelOperator')
+        if c13._ravel_by_evaluation(SimpleNamespace(world=world, table=table, cache={}), sub, ravel):
+            ck.obs[:] = [o for o in ck.obs if o not in pending]
+            for o in sub.obs:
+                o.rule = f'{ck.pid}.R-IDENT'
+                ck.obs.append(o)
     ck.floor('R-IDENT', n, 3, 'identity-returning reduce sites')
 
 
